@@ -410,7 +410,7 @@ async fn run(case: Json, tol: Tolerate) -> Outcome {
                                     }
                                     i += 2 + 4 * n;
                                 }
-                                size -= b.len() / 2 - 4;
+                                size = size.saturating_sub((b.len() / 2).saturating_sub(4));
                                 if wide {
                                     size += b.len() + 4;
                                 }
